@@ -1114,8 +1114,9 @@ pub fn roamer(rng: &mut Rng, big: bool) -> String {
             }
             8 if rng.coin() => {
                 // use the current cell, scan away, clear the cell under the pointer, look around
-                a.raw("+++");
+                a.raw(*rng.pick(&["+++", ",", ",+", ",>,<"][..]));
                 a.raw(*rng.pick(&["[->+>+<<]>>[-<<+>>]<<", "[->+<]>[-<+>]<", "[->>+<<]>>[-<<+>>]<<"][..]));
+                a.raw(*rng.pick(&["", "<", "<<", ">"][..]));
                 a.raw(*rng.pick(&["[>]", "[<]", ">[>]", "<[<]", ">>[>]", "[>>]"][..]));
                 a.raw("[-]");
                 a.raw(*rng.pick(&[".", "<.>", ">.<", "<.>>.<", "<<.>>.>."][..]));
@@ -1574,9 +1575,87 @@ pub fn explosive(rng: &mut Rng) -> String {
     explosive_w(rng, *rng.clone().pick(&[8u32, 16, 32, 64]))
 }
 
+/// z = 2^(width-1) * a * b + k * c * c (+ d): product terms whose coefficient is exactly half
+/// the modulus next to squared variables, the special cases of expression normalisation.
+fn half_modulus_mix(rng: &mut Rng, width: u32) -> String {
+    let mut a = Asm::new();
+    // cells: a=0 b=1 c=2 d=3 z=4 t=5 u=6 v=7
+    for c in 0..4 {
+        if rng.chance(3, 4) {
+            a.input(c);
+        } else {
+            a.add(c, rng.range(1, 5));
+        }
+    }
+    let (z, t, u, v) = (4i64, 5i64, 6i64, 7i64);
+    // z += a*b   (a consumed into v and restored, b preserved through t)
+    let mul_into = |a: &mut Asm, x: i64, y: i64, dst: i64| {
+        a.while_(x, |a| {
+            a.while_(y, |a| {
+                a.add(dst, 1);
+                a.add(t, 1);
+                a.add(y, -1);
+            });
+            a.while_(t, |a| {
+                a.add(y, 1);
+                a.add(t, -1);
+            });
+            a.add(v, 1);
+            a.add(x, -1);
+        });
+        a.while_(v, |a| {
+            a.add(x, 1);
+            a.add(v, -1);
+        });
+    };
+    mul_into(&mut a, 0, 1, z);
+    // z *= 2^(width-1)
+    for _ in 0..width - 1 {
+        a.while_(z, |a| {
+            a.add(t, 2);
+            a.add(z, -1);
+        });
+        a.while_(t, |a| {
+            a.add(z, 1);
+            a.add(t, -1);
+        });
+    }
+    // u = c*c (via a copy of c in v... use mul of c with itself through a temporary copy)
+    a.while_(2, |a| {
+        a.add(u, 1);
+        a.add(t, 1);
+        a.add(2, -1);
+    });
+    a.while_(t, |a| {
+        a.add(2, 1);
+        a.add(t, -1);
+    });
+    // now u == c ; z += k * (u * c)
+    let k = rng.range(1, 4);
+    for _ in 0..k {
+        mul_into(&mut a, u, 2, z);
+    }
+    if rng.coin() {
+        a.while_(3, |a| {
+            a.add(z, 1);
+            a.add(3, -1);
+        });
+    }
+    a.output(z);
+    a.while_(z, |a| {
+        a.add(t, 1);
+        a.clear(z);
+    });
+    a.output(t);
+    a.out
+}
+
 pub fn explosive_w(rng: &mut Rng, width: u32) -> String {
     if rng.chance(1, 3) {
         return big_expression(rng);
+    }
+    if rng.chance(1, 4) {
+        return half_modulus_mix(rng, width);
     }
     let mut a = Asm::new();
     let k = rng.range(3, 6);
